@@ -77,6 +77,8 @@ fn c11_discard_one_cluster() {
     kani::assume(g.bs == 9 && g.l2sb == 9);
     let has_back: bool = kani::any();
     let mut env = KEnv::new(info_of(&g, 1u64 << 62, false, false, has_back));
+    let nf0: bool = kani::any();
+    env.mark_need_flush(nf0);
     let guest: u64 = kani::any();
     let cs = 1u64 << g.cb;
     kani::assume(guest & (cs - 1) == 0 && guest < (1u64 << 56));
@@ -111,7 +113,7 @@ fn c11_discard_one_cluster() {
         k += 1;
     }
     if !owns {
-        assert!(env.nrec.get() == 0 && !h.is_dirty());
+        assert!(env.nrec.get() == 0 && !h.is_dirty() && env.need_flush_meta() == nf0);
         kani::cover!(d.kind == spec::Kind::Compressed && !l1_zero);
         kani::cover!(d.kind == spec::Kind::Unallocated && !l1_zero);
         kani::cover!(d.kind == spec::Kind::Zero && !l1_zero, "zero flag without preallocation");
